@@ -463,6 +463,10 @@ pub open spec fn ack_rejected(pre: ProtocolState, post: ProtocolState) -> bool {
 }
 
 
+//@fn gneiss-mqtt/src/mqtt/utils.rs mqtt_packet_to_packet_type props=C11
+    ensures (r == PacketType::Connect) == (packet is Connect),
+//@end
+
 impl ProtocolState {
 //@fn gneiss-mqtt/src/protocol.rs ProtocolState::is_operation_publish_of_qos props=C01
     ensures r == (self.operations@.contains_key(operation_id) && is_qos_publish(*self.operations@[operation_id].packet, qos)),
@@ -2178,6 +2182,14 @@ pub proof fn lemma_marked_all(s: ProtocolState, refs: Seq<&u64>, idx: int)
     }
 }
 
+// C11 "CONNACK before the CONNECT was flushed": the CONNECT of this connection is still queued, half-written, or written but not flushed
+pub open spec fn is_connect_op(s: ProtocolState, id: u64) -> bool { s.operations@.contains_key(id) && *s.operations@[id].packet is Connect }
+pub open spec fn connect_unsent(s: ProtocolState) -> bool {
+    ||| (s.current_operation matches Some(c) && is_connect_op(s, c))
+    ||| exists|i: int| 0 <= i < s.pending_write_completion_operations@.len() && is_connect_op(s, #[trigger] s.pending_write_completion_operations@[i])
+    ||| exists|i: int| 0 <= i < s.high_priority_operation_queue@.len() && is_connect_op(s, #[trigger] s.high_priority_operation_queue@[i])
+}
+
 // ---- CONNACK session handling (C04, C05, C06, C10, C15)
 pub open spec fn handshake_quiet(s: ProtocolState) -> bool {
     &&& s.high_priority_operation_queue@.len() == 0
@@ -2608,6 +2620,94 @@ impl ProtocolState {
             &&& post.pending_non_publish_operations@ == pre.pending_non_publish_operations@
             &&& post.current_operation == pre.current_operation
         }),
+//@end
+
+//@fn gneiss-mqtt/src/protocol.rs ProtocolState::is_connect_packet props=C11,C07
+    ensures r == (self.operations@.contains_key(id) && *self.operations@[id].packet is Connect),
+//@end
+
+//@fn gneiss-mqtt/src/protocol.rs ProtocolState::is_connect_in_queue props=C11,C07 desugar
+    ensures r == connect_unsent(*self),
+//@@loop 0 manual=it
+                invariant_except_break !verif_any0,
+                    forall|j: int| 0 <= j < k0 ==> !is_connect_op(*self, #[trigger] all0[j]),
+                invariant it.obeys_prophetic_iter_laws(), it.decrease() is Some,
+                    0 <= k0 <= all0.len(), all0 == self.pending_write_completion_operations@, it.remaining().unref() =~= all0.skip(k0), it.remaining().len() + k0 == all0.len(),
+                ensures verif_any0 <==> exists|i: int| 0 <= i < all0.len() && is_connect_op(*self, #[trigger] all0[i]),
+                decreases it.decrease()->Some_0,
+//@@loop 1 manual=it
+                invariant_except_break !verif_any1,
+                    forall|j: int| 0 <= j < k1 ==> !is_connect_op(*self, #[trigger] all1[j]),
+                invariant it.obeys_prophetic_iter_laws(), it.decrease() is Some,
+                    0 <= k1 <= all1.len(), all1 == self.high_priority_operation_queue@, it.remaining().unref() =~= all1.skip(k1), it.remaining().len() + k1 == all1.len(),
+                ensures verif_any1 <==> exists|i: int| 0 <= i < all1.len() && is_connect_op(*self, #[trigger] all1[i]),
+                decreases it.decrease()->Some_0,
+//@@at before "if { let mut verif_any0 = false;"
+        let ghost all0 = self.pending_write_completion_operations@;
+        let ghost mut k0: int = 0;
+        let ghost all1 = self.high_priority_operation_queue@;
+        let ghost mut k1: int = 0;
+//@@at before "match it.next() { @nth=1/2"
+            let ghost rem0 = it.remaining();
+//@@at before "if self.is_connect_packet(*id) { @nth=1/2"
+            proof {
+                assert(rem0.len() > 0 && it.remaining() == rem0.drop_first());
+                assert(*id == *rem0[0]);
+                assert(rem0.unref()[0] == *rem0[0]);
+                assert(rem0.unref()[0] == all0.skip(k0)[0]);
+                assert(*id == all0[k0]);
+                assert(it.remaining().unref() =~= all0.skip(k0 + 1)) by {
+                    assert forall|j: int| 0 <= j < it.remaining().len() implies it.remaining().unref()[j] == all0.skip(k0 + 1)[j] by {
+                        assert(it.remaining()[j] == rem0[j + 1]); assert(it.remaining().unref()[j] == *it.remaining()[j]); assert(rem0.unref()[j + 1] == *rem0[j + 1]); assert(rem0.unref()[j + 1] == all0.skip(k0)[j + 1]);
+                    }
+                }
+                k0 = k0 + 1;
+            }
+//@@at before "match it.next() { @nth=2/2"
+            let ghost rem1 = it.remaining();
+//@@at before "if self.is_connect_packet(*id) { @nth=2/2"
+            proof {
+                assert(rem1.len() > 0 && it.remaining() == rem1.drop_first());
+                assert(*id == *rem1[0]);
+                assert(rem1.unref()[0] == *rem1[0]);
+                assert(rem1.unref()[0] == all1.skip(k1)[0]);
+                assert(*id == all1[k1]);
+                assert(it.remaining().unref() =~= all1.skip(k1 + 1)) by {
+                    assert forall|j: int| 0 <= j < it.remaining().len() implies it.remaining().unref()[j] == all1.skip(k1 + 1)[j] by {
+                        assert(it.remaining()[j] == rem1[j + 1]); assert(it.remaining().unref()[j] == *it.remaining()[j]); assert(rem1.unref()[j + 1] == *rem1[j + 1]); assert(rem1.unref()[j + 1] == all1.skip(k1)[j + 1]);
+                    }
+                }
+                k1 = k1 + 1;
+            }
+//@end
+
+//@fn gneiss-mqtt/src/protocol.rs ProtocolState::reset props=C01,C06,C11 desugar
+    requires old(self).wf(),
+    ensures final(self).wf(),
+        // C01: "when the engine is reset (client closed) ... nothing stays tracked"; C06: no identifier stays reserved
+        final(self).operations@ == Map::<u64, ClientOperation>::empty(),
+        final(self).allocated_packet_ids@ == Map::<u16, u64>::empty(),
+        final(self).pending_publish_operations@ == Map::<u16, u64>::empty(), final(self).pending_non_publish_operations@ == Map::<u16, u64>::empty(),
+        final(self).user_operation_queue@.len() == 0, final(self).resubmit_operation_queue@.len() == 0, final(self).high_priority_operation_queue@.len() == 0,
+        final(self).pending_write_completion_operations@.len() == 0, final(self).current_operation is None, !final(self).pending_write_completion,
+        heap_view(final(self).operation_ack_timeouts) == Multiset::<Reverse<OperationTimeoutRecord>>::empty(),
+        final(self).qos2_incomplete_incoming_publishes@ == Set::<u16>::empty(),
+        final(self).current_settings is None, final(self).next_packet_id == 1, !final(self).has_connected_successfully,
+        final(self).next_ping_timepoint is None && final(self).ping_timeout_timepoint is None && final(self).connack_timeout_timepoint is None,
+        // a closed client neither connects nor emits: Disconnected stays Disconnected, every other state ends Halted
+        final(self).state == (if old(self).state == ProtocolStateType::Disconnected { ProtocolStateType::Disconnected } else { ProtocolStateType::Halted }),
+//@@loop 0 iter=it
+            invariant operations@.len() == it.index@,
+                operations@ =~= it.seq().unref().take(it.index@ as int),
+//@@loop 1 iter=it
+            invariant self.wf(),
+                self.state == (if old(self).state == ProtocolStateType::Disconnected { ProtocolStateType::Disconnected } else { ProtocolStateType::Halted }),
+//@@at after "self.update_internal_clock(current_time);"
+        let ghost s0 = *self;
+//@@at before "let mut operations : Vec<u64> = Vec::new();"
+        proof { assert(self.ss_set() =~= s0.ss_set()); assert(self.wf()); }
+//@@at after "self.connack_timeout_timepoint = None;"
+        proof { assert(self.ss_set() =~= Set::<u64>::empty()); }
 //@end
 
 //@fn gneiss-mqtt/src/protocol.rs ProtocolState::get_next_service_timepoint props=C08
